@@ -3,10 +3,12 @@
    andb/orb are inlined.  N, positive, nat, byte, comparison stay Coq inductives. *)
 From Coq Require Extraction ExtrOcamlBasic.
 From RsdnsModel Require Import Base GenConst GenCursor GenLabels GenNames Cursor Names Labels.
+From RsdnsModel.Spec Require WireName.
 Extraction Language OCaml.
 Extraction "model.ml"
   Base.bN Base.Nb Base.lenN Byte.of_N Byte.to_N
   Cursor.c_new Cursor.c_with_pos
   Names.check_label_bytes Names.check_name_bytes Names.name_from_str Names.name_eq Names.name_cmp
   Names.name_hash_feed Names.name_eq_str
-  Labels.read_name Labels.skip_name Labels.labels_drain Labels.nameref_eq Labels.name_fuel.
+  Labels.read_name Labels.skip_name Labels.labels_drain Labels.nameref_eq Labels.name_fuel
+  WireName.spec_name WireName.label_ok WireName.join_labels WireName.wire_len.
